@@ -183,6 +183,11 @@ def call(eng, e, st):
 def call_value(eng, fv, args, kw, st, e):
     if fv.py is not None:
         k = fv.py[0]
+        if k == "callable_ite":
+            _, cnd, fa, fb = fv.py
+            ra = eng.guarded(st, cnd, lambda s2: call_value(eng, fa, args, kw, s2, e))
+            rb = eng.guarded(st, z3.Not(cnd), lambda s2: call_value(eng, fb, args, kw, s2, e))
+            return val_ite(cnd, ra, rb)
         if k == "lambda":
             return inline_lambda(eng, fv, args, kw, st, e)
         if k == "def":
@@ -1047,7 +1052,24 @@ def sf_abs(eng, e, st):
     return npmodel.lift1(npmodel.n_abs, eng.ev(e.args[0], st))
 
 
+def sf_fmax(eng, e, st):
+    npmodel.np_finfo(eng, st, [], {}, e)
+    return eng.lookup(st, "$finfo.max")
+
+
+def sf_lemma(eng, e, st):
+    """lemma("name", t1, ...): instance of a scalar lemma proved separately (pyvc/lemmas.py)."""
+    from . import lemmas
+    from .vals import _real
+    name = e.args[0].value
+    args = [_real(eng.ev(a, st).get_num().r) for a in e.args[1:]]
+    eng.lemmas_used.add(name)
+    return Val.of_bool(lemmas.instance(name, args))
+
+
 SPECFUNCS = {
+    "lemma": sf_lemma,
+    "fmax": sf_fmax,
     "ghost_sqrt": sf_ghost_sqrt, "abs": sf_abs,
     "retval": _seqfun("retval"), "retsd": _seqfun("retsd"), "argpt": _seqfun("argpt"), "mean_of": _statfun("mean"), "std_of": _statfun("std"),
     "upd": sf_upd,
